@@ -165,6 +165,9 @@ PROPERTIES["C01"] = dict(
              stubs=[PACK], consts={"mask_clear": (1 << 18) | (1 << 21) | (1 << 24) | (1 << 28) | (1 << 15)}),
         scan("C01", "scan.untagged", "c01_scan_untagged", [None, None], False, "check returns a rule iff some rule of the probed bucket matches, and the returned rule is a matching one"),
         scan("C01", "scan.after_inactive_tag", "c01_scan_tagged_first_off", ["a", None], False, "a matching rule stored after a rule whose tag is not enabled is still found"),
+        kern("C01.host_tokens", "src/filters/network_matchers.rs", "h_network_matchers.rs", "c01_host_tokens", [T], 1800, 4800, 28, ["filters::network_matchers::is_anchored_by_hostname", "utils::tokenize_pooled", "utils::fast_tokenizer_no_regex"],
+             "filter host 1..=3 bytes of [a-z0-9.-], request host = valid hostname 1..=5 bytes, URL = 's://' ++ host ++ optional '/',':','?'", [("fb", B(3)), ("fl", "usize"), ("hb", B(5)), ("hl", "usize"), ("t", "u8"), ("has_t", "bool")], "c01_host_tokens",
+             asserts="the filter host anchors in the request host => every token of the filter host is a token of the URL", stubs=[PACK]),
         gt("left", True, False, [T], 560, 2400, 16),
         gt("right", False, True, [T], 590, 2400, 16),
         gt("plain", False, False, [T], 600, 2400, 16),
